@@ -138,6 +138,14 @@ ROWS = {
     # docs/cwrapper.rst (C_return_code example): a vector of strings filled by the library
     "vecstr_out": dict(yaml="std::vector< std::string > &{n} +intent(out)", cxx="std::vector<std::string> &{n}", ty="arrs", intent="out",
                        lib_set='{n}.clear(); {n}.push_back("dog"); {n}.push_back("bird");', lib_out="vt_int((long){n}.size());", vals=VEC_VALS),
+    # an output array whose extents are expressions of other arguments (docs/pointers.rst +dimension): rank 2
+    "arrx_out": dict(yaml="double *{n} +intent(out)+dimension({m}+1,{m2})", cxx="double *{n}", ty="arrd", intent="out",
+                     lib_set="for (int i_ = 0; i_ < ({m} + 1) * {m2}; i_++) {n}[i_] = (double)(acc % 50) + 0.25 * i_;",
+                     lib_out="vt_arr_dbl({n}, ({m} + 1) * {m2});", vals=VEC_VALS),
+    "dim_n": dict(yaml="int {n}", cxx="int {n}", ty="int", intent="in", lib_in="vt_int({n});", acc="acc += {n};",
+                  c_decl="int {n} = {v};", c_arg="{n}", c_in="vt_int({n});", vals=["2", "0", "1", "3", "2", "1"]),
+    "dim_m": dict(yaml="int {n}", cxx="int {n}", ty="int", intent="in", lib_in="vt_int({n});", acc="acc += 5 * {n};",
+                  c_decl="int {n} = {v};", c_arg="{n}", c_in="vt_int({n});", vals=["3", "2", "0", "1", "1", "4"]),
     "cls_p": dict(yaml="Cls *{n}", cxx="Cls *{n}", ty="obj", intent="in",
                   lib_in="vt_obj({n});", acc="acc += {w} * (long)({n}->value % 100);",
                   c_decl="", c_arg="&{obj}", c_in="vt_obj({obj}.addr);", vals=["1"] * 6, needs_obj=True),
